@@ -423,7 +423,7 @@ class Tr:
             n, _ = self.E(node.args[0], env, 'nat')
             return f'(List.map ofNat (List.range {n}))', 'vec'
         # np.choose(c, (a0, a1)) on a boolean selector, pointwise: False -> a0, True -> a1
-        if d == 'np.choose' and len(node.args) == 2 and not node.keywords and isinstance(node.args[1], ast.Tuple) \
+        if d == 'np.choose' and len(node.args) == 2 and not node.keywords and isinstance(node.args[1], (ast.Tuple, ast.List)) \
                 and len(node.args[1].elts) == 2:
             c, sc = self._E(node.args[0], env)
             a0, s0 = self._E(node.args[1].elts[0], env)
@@ -514,6 +514,11 @@ class Tr:
                 return f'(List.map P.{p.field} {a})', 'vec'
             if sa == 'fld':
                 return f'(fun p => P.{p.field} ({a} p))', 'fld'
+        if p.elementwise and len(slots) == 2:
+            a, sa = self._E(slots[0], env)
+            b, sb = self._E(slots[1], env)
+            if sa == 'fld' and sb in ('K', 'nat', 'int', 'natlit'):
+                return f'(fun p => P.{p.field} ({a} p) {self.coerce(b, sb, "K", node)})', 'fld'
         parts = [self.E(a, env, s)[0] for a, s in zip(slots, p.args)]
         if p.field.startswith('='):                      # a fixed Lean function of the prelude rather than a field
             return '(' + ' '.join([p.field[1:]] + parts) + ')', p.ret
@@ -944,6 +949,15 @@ STRETCH = Family(
         'np.zeros': Prim('zeros', ['shp', 'dtype'], 'fld'),
     }, extra_params=EMBED, prop='C20')
 
+COLORS = Family(
+    'colors', ['K', 'X', 'D'],
+    '[Add K] [Sub K] [Mul K] [Div K] [Neg K] [LT K] [DecidableLT K] [LE K] [DecidableLE K]', 'ColorPrims',
+    {
+        'np.power': Prim('pow', ['K', 'K'], 'K', elementwise=True),
+        '_convert': Prim('convert', ['fld', 'mat', 'dtype'], 'fld', kw={'dtype': 2},
+                         doc='`_convert(array, matrix, dtype, funcname)`: the 3x3 matrix applied along the channel axis'),
+    }, extra_params=EMBED, prop='C20')
+
 HISTO = Family(
     'histogram thresholds', ['H', 'G'], '', 'HistPrims',
     {
@@ -992,8 +1006,11 @@ TARGETS = [
     Target('morph.py', 'regmin', [('f', 'img'), ('Bc', 'se')], 'bimg', EXTREMA),
     Target('morph.py', 'close_holes', [('ref', 'img'), ('Bc', 'se')], 'bimg', EXTREMA),
     Target('stretch.py', 'stretch', [('img', 'fld'), ('arg0', 'optK'), ('arg1', 'optK'), ('dtype', 'dtype')], 'fld', STRETCH),
+    # positions X = (pixel, channel): the transfer functions act on every channel value, `_convert` mixes the channels of a pixel
+    Target('colors.py', 'rgb2xyz', [('rgb', 'fld'), ('dtype', 'dtype')], 'fld', COLORS),
+    Target('colors.py', 'xyz2rgb', [('xyz', 'fld'), ('dtype', 'dtype')], 'fld', COLORS),
 ]
-FAMILIES = [MORPH, CONV, THRESH, HISTO, LAPL, RC, SOFT, EXTREMA, STRETCH]
+FAMILIES = [MORPH, CONV, THRESH, HISTO, LAPL, RC, SOFT, EXTREMA, STRETCH, COLORS]
 
 
 def _find_function(tree, name):
